@@ -371,6 +371,11 @@ func DumpFuncs(repo, verif string) int {
 			if fn.Parent() == nil && fn.Synthetic == "" {
 				names = append(names, fn.String())
 				names = append(names, "SIG "+fn.String()+"\t"+an.SigString(fn))
+				var ps []string
+				for _, prm := range fn.Params {
+					ps = append(ps, prm.Name())
+				}
+				names = append(names, "PARAMS "+fn.String()+"\t"+strings.Join(ps, ","))
 				if fn.Signature.Recv() != nil && len(fn.Params) > 0 {
 					if n := an.NamedOf(fn.Signature.Recv().Type()); n != nil && n.Obj().Pkg() != nil {
 						names = append(names, "RECV "+n.Obj().Pkg().Path()+"."+n.Obj().Name()+" "+fn.Params[0].Name())
